@@ -306,6 +306,9 @@ func (x *Exec) callMayWriteHeap(call *ast.CallExpr) bool {
 // nextLoopOrd returns the ordinal of loop statement n. For the function under contract the ordinal is
 // static (source order within the body, function literals excluded), so that it does not depend on how
 // many states reach the loop under path splitting; inlined frames keep a per-activation counter.
+// thoroughTier: set by `govc check --tier thorough` (extra reachability probes)
+var thoroughTier bool
+
 func (x *Exec) nextLoopOrd(f *Frame, n ast.Node) int {
 	if f.contract != nil && !f.inlined && f.fi != nil && f.fi.Decl != nil && f.fi.Decl.Body != nil {
 		if f.loopIdx == nil {
@@ -577,6 +580,13 @@ func (x *Exec) cutLoop(s *State, ord int, label string, spec *LoopSpec, pos toke
 	if c != False {
 		b := h.clone()
 		b.assume(c)
+		if thoroughTier && spec != nil && len(spec.Invariants) > 0 && !f.inlined && x.dry == 0 {
+			// reachability probe behind the loop invariants: invariant + guard must be satisfiable, otherwise the
+			// preservation obligations are vacuously true (undecided probes, e.g. quantified invariants, are inconclusive)
+			top := x.frames[0].fi
+			x.obls = append(x.obls, &Obligation{Name: fmt.Sprintf("%s/loop%d.reach", top.Key, ord), Kind: "vacuity", Func: top.Key,
+				Hyps: append([]*Term(nil), b.assumes...), Goal: nil, Pos: x.pos(pos), Text: "loop invariants and guard satisfiable", fi: top, Props: x.curProps})
+		}
 		if f.iterStarts == nil {
 			f.iterStarts = map[int]*State{}
 		}
